@@ -49,7 +49,7 @@ for pid in sorted(CHECKS):
         "evidence_file": "/verif/evidence/%s.json" % pid,
         "replay_cmd_template": "./check %s --replay {path}" % pid,
         "engine": "vf",
-        "level_claimed": {"category": c["level"], "text": c["level_text"],
+        "level_claimed": {"category": c["level"], "text": c["level_text"] + (" " + c["level_text_extra"] if c.get("level_text_extra") else ""),
                           "design_ref": "DESIGN.md section 4, " + pid},
         "level_note": c["level_note"],
         "technique": c["technique"] + (
